@@ -106,12 +106,19 @@ class CallableObject(object):
         return self.rec.invoke(*args, **kwargs)
 
 
+class FalsyCallable(CallableObject):
+    """A callable container that is currently empty: falsy, and a callable like any other."""
+
+    def __len__(self):
+        return 0
+
+
 def make_fn(rec):
     if rec.kind == 2:
         rec.prefix = (77,)
         return functools.partial(rec.invoke, 77)
     if rec.kind == 3:
-        obj = CallableObject(rec)
+        obj = FalsyCallable(rec) if getattr(rec, "falsy", False) else CallableObject(rec)
         if getattr(rec, "attrs", False):
             # a decorator-style callable object carrying attributes a wrapper might also use
             obj._fn = obj.fn = obj._BoundCallable__fn_ = (lambda *a, **k: "WRONG-FUNCTION")
@@ -230,6 +237,7 @@ def build(p):
         def run_form(form):
             rec = Recorder(form, subs, kind)
             rec.attrs = bool(p.get("attrs"))
+            rec.falsy = bool(p.get("falsy"))
             fn = make_fn(rec)
             created = []
             kw = {"name": NAMES[basename]} if basename else {}
